@@ -145,3 +145,6 @@ impl<T> IterExt<T> for Vec<T> {
         Ok(results)
     }
 }
+#[cfg(kani)]
+#[path = "/verif/kani/helpers.rs"]
+mod verif_kani;
